@@ -1,5 +1,21 @@
 #![doc = include_str!("../README.md")]
 
+// Verification hooks (no-ops unless built with `--cfg circ_verif`).
+#[cfg(circ_verif)]
+#[allow(unused_macros)]
+macro_rules! vy {
+    ($site:expr, $a:expr, $b:expr) => {
+        $crate::verif::hook($site, ($a) as usize, ($b) as usize)
+    };
+}
+#[cfg(not(circ_verif))]
+#[allow(unused_macros)]
+macro_rules! vy {
+    ($($t:tt)*) => {};
+}
+#[cfg(circ_verif)]
+pub mod verif;
+
 pub(crate) mod ebr_impl;
 mod strong;
 mod utils;
